@@ -531,6 +531,7 @@ class Gen:
                     bind = ["_", 0]
             if stmt:
                 body = self.block_stmts(depth, r.choice([1, 1, 2]))
+                unitize(body)
                 p = t = False
             else:
                 b = self.block_expr(ty, depth, eff)
@@ -639,6 +640,11 @@ class Gen:
             cond = self.head(BOOL, d, True)
             t = self.block_stmts(d - 1, r.choice([1, 2, 2, 3]))
             f = self.block_stmts(d - 1, r.choice([1, 2])) if r.random() < 0.5 else None
+            if f is not None:
+                # `check` insists that both branches of an if/else have compatible types even when the value is
+                # unused, so statement-level branches end in Unit
+                unitize(t)
+                unitize(f)
             return [{"k": "expr", "e": E("if", UNIT, False, False, cond=cond, then=t, els=f, stmt=True)}]
         if k in ("ifbreak", "ifcontinue", "ifreturn"):
             cond = self.head(BOOL, d, False)
@@ -790,8 +796,10 @@ class Gen:
                 body.append({"k": "let", "name": v.name, "bid": v.bid, "ann": None, "e": e})
         if ret != UNIT:
             body.append({"k": "expr", "e": self.final_expr(ret, 2, effectful)})
-        elif not body or body[-1]["k"] != "expr" or body[-1]["e"]["ty"] != UNIT:
-            body.append({"k": "expr", "e": E("unit", UNIT)})
+        else:
+            unitize(body)
+            if not body or body[-1]["k"] != "expr":
+                body.append({"k": "expr", "e": E("unit", UNIT)})
         fdesc["body"] = body
         fdesc["recursive"] = recursive
         self.cur_fun = None
@@ -814,6 +822,21 @@ class Gen:
         prog = {"enums": self.enums, "structs": self.structs, "funs": self.funs, "main": main}
         clamp_rec_args(prog)
         return prog
+
+
+def unitize(block):
+    """Make a statement-level block evaluate to Unit."""
+    if block:
+        last = block[-1]
+        if last["k"] in ("break", "continue", "return", "let", "letd", "assign", "upd", "while", "for"):
+            return
+        if last["k"] == "expr":
+            e = last["e"]
+            if e["k"] == "unit" or (e["k"] == "call" and e["ty"] == UNIT and e.get("builtin")):
+                return
+            if e["k"] == "if" and e.get("stmt") and e.get("els") is None:
+                return
+    block.append({"k": "expr", "e": E("unit", UNIT)})
 
 
 def starts_open(e):
